@@ -767,10 +767,13 @@ fn fnv_hex(s: &str) -> String {
   format!("{h:016x}")
 }
 
-fn run_replay_value(def: &PropertyDef, case: &Value) -> Result<CheckResult, String> {
+/// Replay one case. `tolerate` lists signatures that are tolerated (empty + strict for `--replay`; for the
+/// head-of-run reproducers: every *other* listed known finding, so that a reproducer whose history necessarily
+/// passes through another known finding still reaches its own).
+fn run_replay_value(def: &PropertyDef, case: &Value, tolerate: &HashSet<String>) -> Result<CheckResult, String> {
   let tol = Tolerated {
-    sigs: HashSet::new(),
-    strict: true,
+    sigs: tolerate.clone(),
+    strict: tolerate.is_empty(),
   };
   let mut obs = Obs::new(&tol);
   match catch(|| (def.replay)(case, &mut obs)) {
@@ -805,7 +808,7 @@ pub fn drive(def: &PropertyDef, tier: Tier, seed: u64, replay: Option<String>) -
         return 2;
       }
     };
-    return match run_replay_value(def, &case) {
+    return match run_replay_value(def, &case, &HashSet::new()) {
       Ok(Ok(())) => {
         println!("REPLAY property={} result=pass file={path}", def.id);
         0
@@ -835,10 +838,15 @@ pub fn drive(def: &PropertyDef, tier: Tier, seed: u64, replay: Option<String>) -
   // Head of run: reproducers of known (tolerated) and fixed (regression) entries, in strict mode.
   let mut known_lines = Vec::new();
   for k in &known {
+    let others: HashSet<String> = known
+      .iter()
+      .filter(|o| o.status == "known" && !(k.status == "known" && o.sig == k.sig))
+      .map(|o| o.sig.clone())
+      .collect();
     let outcome = k
       .repro
       .as_ref()
-      .map(|p| read_case_file(p).and_then(|c| run_replay_value(def, &c).map(|r| (c, r))));
+      .map(|p| read_case_file(p).and_then(|c| run_replay_value(def, &c, &others).map(|r| (c, r))));
     match (k.status.as_str(), outcome) {
       ("known", Some(Ok((_, Err(v))))) if v.kind == ViolKind::Property && v.sig == k.sig => {
         known_lines.push(format!("KNOWN-FINDING: property={} {} [sig={}]", def.id, k.what_without_prop(), k.sig));
